@@ -197,8 +197,12 @@ def xfmt_case(ctx, c):
         return
     ok, v = solve_loaded(ss)
     compare_solutions(ctx, c, net, ref_ok, ref_v, ok, v, sig)
-    if ok:
+    if ok and v and min(x[0] for x in v.values()) >= 0.9 and max(x[0] for x in v.values()) <= 1.1:
+        # outside the normal range the voltage-dependent load conversion applies, and the formats carry their own
+        # voltage limits for it (MATPOWER Vmin/Vmax columns): not the same network by construction
         balance_at(ctx, net, ss, 'generated ' + c['fmt'], sig, tol=1e-10)
+    elif ok:
+        ctx.count('xfmt:balance_not_judged_outside_normal_range')
     nontrivial(ctx, c, feats)
 
 
